@@ -132,8 +132,10 @@ func StringValueFromCodeField(message proto.Message) (string, bool) {
 			if original, ok := proto.GetExtension(value.Options(), apb.E_FhirOriginalCode).(string); ok && original != "" {
 				return original, true
 			}
+			// Enum value names are the upper-cased code with "-" written as "_";
+			// kebab-casing would also split digits off (LEVEL4 is level4).
 			code := string(value.Name())
-			return strcase.ToKebab(code), true
+			return strings.ReplaceAll(strings.ToLower(code), "_", "-"), true
 		}
 		if field.Kind() == protoreflect.StringKind {
 			return reflect.Get(field).String(), true
